@@ -180,7 +180,7 @@ PollEmpty == \* hook PollEmpty{p}
   /\ UNCHANGED <<pc, phase, actual, tactic, processed, carry, lim, drained, intr, bad, finfo>> /\ UNCH_cfg /\ UNCH_ctl /\ UNCHANGED evars
 PollTick == \* hook PollTick{p, interrupt}
   /\ pc = "Poll" /\ NextPollable # 0
-  /\ LET c == chanOf[prios[NextPollable]] IN InCap[c] = 0 /\ ~(inq[c] = <<>> /\ closed[c])
+  /\ LET c == chanOf[prios[NextPollable]] IN InCap[c] = 0    \* also when the channel is closed: select picks any ready case
   /\ IF intr THEN idx' = NextPollable + 1 /\ intr' = FALSE ELSE idx' = NextPollable /\ intr' = TRUE
   /\ UNCHANGED <<pc, phase, actual, tactic, processed, carry, lim, drained, bad, finfo>> /\ UNCH_cfg /\ UNCH_ctl /\ UNCHANGED evars
 Drain ==    \* hook Drained{p}
